@@ -407,8 +407,9 @@ def run(pm, ctx):
                 probs.append(f"{norm_src(c)} does not copy from best_weights[i]")
                 continue
             got.append((dst.replace("self.", ""), srcn.slice.value))
-            conds = [(norm_src(p.test), _branch(p, c)) for p in parents(c) if isinstance(p, ast.If)]
-            if ("restore_best_weights", True) not in conds or not (("not self.dynamic", True) in conds or ("self.dynamic", False) in conds):
+            from ..flow import implied_literals
+            known = implied_literals(c)
+            if ("restore_best_weights", True) not in known or ("self.dynamic", False) not in known:
                 probs.append(f"{norm_src(c)} is not under `restore_best_weights and not dynamic`")
         want = [(w, i) for i, w in enumerate(fixed)]
         if sorted(got) != sorted(want):
